@@ -8,7 +8,7 @@
        filled in), pulling exactly the message;
      - the result depends on the stream only through the concatenation of its chunks; tokio's read_exact loop
        over a chunked stream (GenAsync.pull) is `take` on the concatenation. *)
-From PV Require Import Thrift.Skip Proofs.TablesP Proofs.PrimP Proofs.HeaderP Proofs.RoundtripP Proofs.TotalP Proofs.AsyncP Proofs.SkipP.
+From PV Require Import Thrift.Skip Proofs.VarintP Proofs.TablesP Proofs.PrimP Proofs.HeaderP Proofs.RoundtripP Proofs.TotalP Proofs.AsyncP Proofs.SkipP Proofs.PrefixP.
 From PVGen Require Import Gen GenSpec GenAsync Proofs.GenBase Proofs.EncP Proofs.RoundP Proofs.OwnP Proofs.TotalGenP.
 From Coq Require Import ZifyN ZifyNat ZifyBool.
 Open Scope Z_scope.
@@ -315,3 +315,636 @@ Example ex_async :
   gen_decode_async_stream ex_schema PCompact 20 (TyRef 0) [[x15; x0e; x19]; []; [x18; x01; x61; x11; x00]]%byte
   = Ok (ex_value, mkS [] r0).
 Proof. vm_compute. reflexivity. Qed.
+
+(* ================= strict prefixes: the asynchronous decoder sees EOF ================= *)
+(* The asynchronous readers are monotone in the bytes the stream delivers: a read that succeeds on a stream that
+   ends after [l] succeeds with the same value when more bytes follow, and leaves them unpulled. *)
+Lemma AEXT_take n : EXT (a_take n).
+Proof.
+  intros s a s' t H. unfold a_take in *. cbn [ext rbuf].
+  destruct (take n (rbuf s)) as [[a' r]|] eqn:E; [|discriminate]. injection H as <- <-.
+  apply take_some in E as [E1 E2]. rewrite E1, <- app_assoc, take_app by exact E2. reflexivity.
+Qed.
+Lemma AEXT_varint m : EXT (a_varint m).
+Proof.
+  intros s n s' t H. unfold a_varint, read_var_u64 in *. cbn [ext rbuf].
+  destruct (rd_var m 0 0 (rbuf s)) as [[n' r]| |] eqn:E; try discriminate.
+  injection H as <- <-. rewrite (rd_var_ext _ _ _ _ _ _ t E). reflexivity.
+Qed.
+Lemma AEXT_byte : EXT a_byte.
+Proof. apply (EXT_map _ of_le), AEXT_take. Qed.
+Lemma AEXT_i8 : EXT a_i8.
+Proof. apply (EXT_map _ (fun a => wrap_s 8 (of_le a))), AEXT_take. Qed.
+Lemma AEXT_fixed p n b : EXT (a_fixed p n b).
+Proof. apply (EXT_map _ (fun a => wrap_s b (unfx p a))), AEXT_take. Qed.
+Lemma AEXT_i16 p : EXT (a_i16 p).
+Proof. destruct p; cbn [a_i16]; try apply AEXT_fixed. apply (EXT_map _ (fun n => wrap_s 16 (unzigzag n))), AEXT_varint. Qed.
+Lemma AEXT_i32 p : EXT (a_i32 p).
+Proof. destruct p; cbn [a_i32]; try apply AEXT_fixed. apply (EXT_map _ (fun n => wrap_s 32 (unzigzag n))), AEXT_varint. Qed.
+Lemma AEXT_i64 p : EXT (a_i64 p).
+Proof. destruct p; cbn [a_i64]; try apply AEXT_fixed. apply (EXT_map _ (fun n => wrap_s 64 (unzigzag n))), AEXT_varint. Qed.
+Lemma AEXT_double p : EXT (a_double p).
+Proof. apply (EXT_map _ (fun a => match p with PBinary => of_be a | _ => of_le a end)), AEXT_take. Qed.
+Lemma AEXT_uuid : EXT a_uuid.
+Proof. apply AEXT_take. Qed.
+
+Lemma AEXT_split (n : Z) : EXT (fun s => if n <=? Z.of_nat (length (rbuf s)) then a_take (Z.to_nat n) s else Err ETransport).
+Proof.
+  intros s a s' t H. cbn [ext rbuf]. rewrite app_length.
+  destruct (n <=? Z.of_nat (length (rbuf s))) eqn:E; [|discriminate].
+  replace (n <=? Z.of_nat (length (rbuf s) + length t)) with true by lia.
+  apply AEXT_take, H.
+Qed.
+Lemma AEXT_bytes p : EXT (a_bytes p).
+Proof.
+  destruct p; cbn [a_bytes].
+  1,2: match goal with |- EXT (fun s => let* (n, s0) := ?m s in @?f n s0) => apply (EXT_bind m f) end;
+       [first [apply (AEXT_i32 PBinary)|apply (AEXT_i32 PBinaryLE)]|];
+       intros n; destruct (n <? 0); [apply EXT_fail|apply AEXT_split].
+  apply (EXT_bind (a_varint maxsize_32) (fun n s => if wrap_u 32 n <=? Z.of_nat (length (rbuf s)) then a_take (Z.to_nat (wrap_u 32 n)) s else Err ETransport)).
+  - apply AEXT_varint.
+  - intros n. apply AEXT_split.
+Qed.
+Lemma AEXT_ttype : EXT a_ttype.
+Proof.
+  unfold a_ttype. apply EXT_bind; [apply AEXT_byte|]. intros b. destruct (ttype_of_byte b); [apply EXT_ret|apply EXT_fail].
+Qed.
+Lemma AEXT_bool p : EXT (a_bool p).
+Proof.
+  destruct p; cbn [a_bool].
+  1,2: apply (EXT_map _ (fun b => negb (b =? 0))), AEXT_i8.
+  intros s b s' t H. cbn [ext rc] in *.
+  destruct (r_pbool (rc s)); [injection H as <- <-; reflexivity|].
+  binv H. rewrite (AEXT_byte _ _ _ t E). cbn [bind].
+  destruct (ctype_of_code x) as [[]|]; try discriminate; injection H as <- <-; reflexivity.
+Qed.
+Lemma AEXT_struct_begin p : EXT (a_struct_begin p).
+Proof. apply EXT_struct_begin. Qed.
+Lemma AEXT_struct_end p : EXT (a_struct_end p).
+Proof. apply EXT_struct_end. Qed.
+
+Lemma AEXT_field_begin p : EXT (a_field_begin p).
+Proof.
+  destruct p; cbn [a_field_begin].
+  1,2: apply EXT_bind; [apply AEXT_ttype|]; intros ty; destruct ty; try apply EXT_ret;
+       apply (EXT_map _ (fun id => (_, Some id))); first [apply (AEXT_i16 PBinary) | apply (AEXT_i16 PBinaryLE)].
+  intros s h s' t H.
+  binv H. rewrite (AEXT_byte _ _ _ t E). cbn [bind].
+  set (lo := x mod 16) in *. set (delta := x / 16) in *.
+  assert (Hty : forall ty s1,
+             (if lo =? ctype_code CBooleanTrue
+              then Ok (TBool, set_rc s0 {| r_last := r_last (rc s0); r_stack := r_stack (rc s0); r_pbool := Some true; r_pfield := r_pfield (rc s0) |})
+              else if lo =? ctype_code CBooleanFalse
+              then Ok (TBool, set_rc s0 {| r_last := r_last (rc s0); r_stack := r_stack (rc s0); r_pbool := Some false; r_pfield := r_pfield (rc s0) |})
+              else match ctype_of_code lo with
+                   | Some ct => match ttype_of_ctype ct with Some t0 => Ok (t0, s0) | None => Err EInvalidData end
+                   | None => Err EInvalidData
+                   end) = Ok (ty, s1) ->
+             (if lo =? ctype_code CBooleanTrue
+              then Ok (TBool, set_rc (ext s0 t) {| r_last := r_last (rc (ext s0 t)); r_stack := r_stack (rc (ext s0 t)); r_pbool := Some true; r_pfield := r_pfield (rc (ext s0 t)) |})
+              else if lo =? ctype_code CBooleanFalse
+              then Ok (TBool, set_rc (ext s0 t) {| r_last := r_last (rc (ext s0 t)); r_stack := r_stack (rc (ext s0 t)); r_pbool := Some false; r_pfield := r_pfield (rc (ext s0 t)) |})
+              else match ctype_of_code lo with
+                   | Some ct => match ttype_of_ctype ct with Some t0 => Ok (t0, ext s0 t) | None => Err EInvalidData end
+                   | None => Err EInvalidData
+                   end) = Ok (ty, ext s1 t)).
+  { intros ty s1 Hq.
+    destruct (lo =? ctype_code CBooleanTrue); [injection Hq as <- <-; reflexivity|].
+    destruct (lo =? ctype_code CBooleanFalse); [injection Hq as <- <-; reflexivity|].
+    destruct (ctype_of_code lo) as [ct|]; [|discriminate].
+    destruct (ttype_of_ctype ct); [|discriminate]. injection Hq as <- <-. reflexivity. }
+  binv H. rewrite (Hty _ _ E0). cbn [bind].
+  destruct x0; try (injection H as <- <-; reflexivity);
+    (destruct (negb (delta =? 0));
+     [injection H as <- <-; reflexivity
+     |binv H; rewrite (AEXT_i16 PCompact _ _ _ t E1); cbn [bind]; injection H as <- <-; reflexivity]).
+Qed.
+
+Lemma AEXT_coll_begin p : EXT (a_coll_begin p).
+Proof.
+  intros s h s' t H. destruct p; cbn [a_coll_begin] in *.
+  1,2: binv H; rewrite (AEXT_ttype _ _ _ t E); cbn [bind]; binv H;
+       first [rewrite (AEXT_i32 PBinary _ _ _ t E0) | rewrite (AEXT_i32 PBinaryLE _ _ _ t E0)]; cbn [bind];
+       injection H as <- <-; reflexivity.
+  binv H. rewrite (AEXT_byte _ _ _ t E). cbn [bind].
+  destruct (ttype_of_nibble (x mod 16)) as [et| |]; cbn [bind] in *; try discriminate.
+  destruct (negb (x / 16 =? 15)); [injection H as <- <-; reflexivity|].
+  binv H. rewrite (AEXT_varint _ _ _ _ t E0). cbn [bind]. injection H as <- <-. reflexivity.
+Qed.
+Lemma AEXT_map_begin p : EXT (a_map_begin p).
+Proof.
+  intros s h s' t H. destruct p; cbn [a_map_begin] in *.
+  1,2: binv H; rewrite (AEXT_ttype _ _ _ t E); cbn [bind]; binv H; rewrite (AEXT_ttype _ _ _ t E0); cbn [bind]; binv H;
+       first [rewrite (AEXT_i32 PBinary _ _ _ t E1) | rewrite (AEXT_i32 PBinaryLE _ _ _ t E1)]; cbn [bind];
+       injection H as <- <-; reflexivity.
+  binv H. rewrite (AEXT_varint _ _ _ _ t E). cbn [bind].
+  destruct (wrap_s 32 x =? 0); [injection H as <- <-; reflexivity|].
+  binv H. rewrite (AEXT_byte _ _ _ t E0). cbn [bind].
+  destruct (ttype_of_nibble (x0 / 16)) as [kt| |]; cbn [bind] in *; try discriminate.
+  destruct (ttype_of_nibble (x0 mod 16)) as [vt| |]; cbn [bind] in *; try discriminate.
+  injection H as <- <-. reflexivity.
+Qed.
+
+(* none of the asynchronous primitives has a panic outcome *)
+Lemma ANP_take n : NP (a_take n).
+Proof. intros s st. unfold a_take. destruct (take n (rbuf s)) as [[a r]|]; discriminate. Qed.
+Lemma ANP_varint m : NP (a_varint m).
+Proof.
+  intros s st. unfold a_varint, read_var_u64. pose proof (rd_var_good m 0 0 (rbuf s)) as G.
+  destruct (rd_var m 0 0 (rbuf s)) as [[n r]| |]; try discriminate. destruct G.
+Qed.
+Lemma ANP_byte : NP a_byte.
+Proof. apply (NP_map _ of_le), ANP_take. Qed.
+Lemma ANP_i8 : NP a_i8.
+Proof. apply (NP_map _ (fun a => wrap_s 8 (of_le a))), ANP_take. Qed.
+Lemma ANP_fixed p n b : NP (a_fixed p n b).
+Proof. apply (NP_map _ (fun a => wrap_s b (unfx p a))), ANP_take. Qed.
+Lemma ANP_i16 p : NP (a_i16 p).
+Proof. destruct p; cbn [a_i16]; try apply ANP_fixed. apply (NP_map _ (fun n => wrap_s 16 (unzigzag n))), ANP_varint. Qed.
+Lemma ANP_i32 p : NP (a_i32 p).
+Proof. destruct p; cbn [a_i32]; try apply ANP_fixed. apply (NP_map _ (fun n => wrap_s 32 (unzigzag n))), ANP_varint. Qed.
+Lemma ANP_i64 p : NP (a_i64 p).
+Proof. destruct p; cbn [a_i64]; try apply ANP_fixed. apply (NP_map _ (fun n => wrap_s 64 (unzigzag n))), ANP_varint. Qed.
+Lemma ANP_double p : NP (a_double p).
+Proof. apply (NP_map _ (fun a => match p with PBinary => of_be a | _ => of_le a end)), ANP_take. Qed.
+Lemma ANP_uuid : NP a_uuid.
+Proof. apply ANP_take. Qed.
+Lemma ANP_split (n : Z) : NP (fun s => if n <=? Z.of_nat (length (rbuf s)) then a_take (Z.to_nat n) s else Err ETransport).
+Proof. intros s st. destruct (n <=? Z.of_nat (length (rbuf s))); [apply ANP_take|discriminate]. Qed.
+Lemma ANP_bytes p : NP (a_bytes p).
+Proof.
+  destruct p; cbn [a_bytes].
+  1,2: match goal with |- NP (fun s => let* (n, s0) := ?m s in @?f n s0) => apply (NP_bind m f) end;
+       [first [apply (ANP_i32 PBinary)|apply (ANP_i32 PBinaryLE)]|];
+       intros n; destruct (n <? 0); [intros s st; discriminate|apply ANP_split].
+  apply (NP_bind (a_varint maxsize_32) (fun n s => if wrap_u 32 n <=? Z.of_nat (length (rbuf s)) then a_take (Z.to_nat (wrap_u 32 n)) s else Err ETransport)).
+  - apply ANP_varint.
+  - intros n. apply ANP_split.
+Qed.
+Lemma ANP_ttype : NP a_ttype.
+Proof.
+  unfold a_ttype. apply NP_bind; [apply ANP_byte|]. intros b s st. destruct (ttype_of_byte b); discriminate.
+Qed.
+Lemma ANP_bool p : NP (a_bool p).
+Proof.
+  destruct p; cbn [a_bool].
+  1,2: apply (NP_map _ (fun b => negb (b =? 0))), ANP_i8.
+  intros s st. destruct (r_pbool (rc s)); [discriminate|].
+  pose proof (ANP_byte s) as H. destruct (a_byte s) as [[z s1]| |]; cbn [bind]; [|discriminate|exfalso; eapply H; reflexivity].
+  destruct (ctype_of_code z) as [[]|]; discriminate.
+Qed.
+Lemma ANP_struct_begin p : NP (a_struct_begin p).
+Proof. intros s. eapply good_np, r_struct_begin_good. Qed.
+Lemma ANP_struct_end p : NP (a_struct_end p).
+Proof. intros s. eapply good_np, r_struct_end_good. Qed.
+Lemma ANP_field_begin p : NP (a_field_begin p).
+Proof.
+  destruct p; cbn [a_field_begin].
+  1,2: apply NP_bind; [apply ANP_ttype|]; intros ty; destruct ty; try (intros s st; discriminate);
+       apply (NP_map _ (fun id => (_, Some id))); first [apply (ANP_i16 PBinary) | apply (ANP_i16 PBinaryLE)].
+  intros s st. pose proof (ANP_byte s) as H0.
+  destruct (a_byte s) as [[b s1]| |]; cbn [bind]; [|discriminate|exfalso; eapply H0; reflexivity].
+  match goal with |- bind ?X _ <> _ => assert (HX : forall st', X <> Panic st') end.
+  { intros st'. destruct (b mod 16 =? ctype_code CBooleanTrue); [discriminate|].
+    destruct (b mod 16 =? ctype_code CBooleanFalse); [discriminate|].
+    destruct (ctype_of_code (b mod 16)) as [ct|]; [|discriminate]. destruct (ttype_of_ctype ct); discriminate. }
+  match goal with |- bind ?X _ <> _ => destruct X as [[ty s2]| |] end; cbn [bind]; [|discriminate|exfalso; eapply HX; reflexivity].
+  destruct ty; try discriminate;
+    (destruct (negb (b / 16 =? 0)); [discriminate|];
+     pose proof (ANP_i16 PCompact s2) as H2;
+     destruct (a_i16 PCompact s2) as [[i s3]| |]; cbn [bind]; [discriminate|discriminate|exfalso; eapply H2; reflexivity]).
+Qed.
+Lemma ANP_coll_begin p : NP (a_coll_begin p).
+Proof.
+  destruct p; cbn [a_coll_begin].
+  1,2: apply NP_bind; [apply ANP_ttype|]; intros et;
+       apply (NP_map _ (fun n => (et, wrap_u 64 n))); first [apply (ANP_i32 PBinary)|apply (ANP_i32 PBinaryLE)].
+  apply NP_bind; [apply ANP_byte|]. intros h s st.
+  pose proof (ttype_of_nibble_nopanic (h mod 16)) as Hn.
+  destruct (ttype_of_nibble (h mod 16)) as [et| |]; cbn [bind]; [|discriminate|exfalso; eapply Hn; reflexivity].
+  destruct (negb (h / 16 =? 15)); [discriminate|].
+  pose proof (ANP_varint maxsize_32 s) as H1.
+  destruct (a_varint maxsize_32 s) as [[n s1]| |]; cbn [bind]; [discriminate|discriminate|exfalso; eapply H1; reflexivity].
+Qed.
+Lemma ANP_map_begin p : NP (a_map_begin p).
+Proof.
+  destruct p; cbn [a_map_begin].
+  1,2: apply NP_bind; [apply ANP_ttype|]; intros kt; apply NP_bind; [apply ANP_ttype|]; intros vt;
+       apply (NP_map _ (fun n => (kt, vt, wrap_u 64 n))); first [apply (ANP_i32 PBinary)|apply (ANP_i32 PBinaryLE)].
+  apply NP_bind; [apply ANP_varint|]. intros n s st.
+  destruct (wrap_s 32 n =? 0); [discriminate|].
+  pose proof (ANP_byte s) as H0.
+  destruct (a_byte s) as [[h s1]| |]; cbn [bind]; [|discriminate|exfalso; eapply H0; reflexivity].
+  pose proof (ttype_of_nibble_nopanic (h / 16)) as Hk.
+  destruct (ttype_of_nibble (h / 16)) as [kt| |]; cbn [bind]; [|discriminate|exfalso; eapply Hk; reflexivity].
+  pose proof (ttype_of_nibble_nopanic (h mod 16)) as Hv.
+  destruct (ttype_of_nibble (h mod 16)) as [vt| |]; cbn [bind]; [discriminate|discriminate|exfalso; eapply Hv; reflexivity].
+Qed.
+
+Lemma MONO_a {A} (m : rm A) : EXT m -> NP m -> MONO m.
+Proof. apply MONO_of_EXT. Qed.
+
+(* the asynchronous skipper *)
+Section ASkipMono.
+  Variable p : pk.
+  Variable rec : ttype -> rm unit.
+  Hypothesis Hrec : forall ty, MONO (rec ty).
+
+  Lemma MONO_askip_fields : forall n, MONO (askip_fields p rec n).
+  Proof using Hrec.
+    induction n as [|n IH]; intros s tl; cbn [askip_fields]; [reflexivity|].
+    apply (MONO_bind (a_field_begin p) (fun h s1 => if ttype_eqb (fst h) TStop then Ok (tt, s1)
+                                                    else let* (_, s2) := rec (fst h) s1 in askip_fields p rec n s2)).
+    - apply MONO_a; [apply AEXT_field_begin|apply ANP_field_begin].
+    - intros h. destruct (ttype_eqb (fst h) TStop); [apply MONO_ret|].
+      apply (MONO_bind (rec (fst h)) (fun _ s2 => askip_fields p rec n s2)); [apply Hrec|]. intros u. apply IH.
+  Qed.
+  Lemma MONO_askip_elems : forall m et n, MONO (askip_elems rec m et n).
+  Proof using Hrec.
+    induction m as [|m IH]; intros et n s tl; cbn [askip_elems]; destruct (n <=? 0); try reflexivity.
+    apply (MONO_bind (rec et) (fun _ s1 => askip_elems rec m et (n - 1) s1)); [apply Hrec|]. intros u. apply IH.
+  Qed.
+  Lemma MONO_askip_pairs : forall m kt vt n, MONO (askip_pairs rec m kt vt n).
+  Proof using Hrec.
+    induction m as [|m IH]; intros kt vt n s tl; cbn [askip_pairs]; destruct (n <=? 0); try reflexivity.
+    apply (MONO_bind (rec kt) (fun _ s1 => let* (_, s2) := rec vt s1 in askip_pairs rec m kt vt (n - 1) s2)); [apply Hrec|]. intros u.
+    apply (MONO_bind (rec vt) (fun _ s2 => askip_pairs rec m kt vt (n - 1) s2)); [apply Hrec|]. intros u2. apply IH.
+  Qed.
+End ASkipMono.
+
+Lemma MONO_drop {A} (m : rm A) : MONO m -> MONO (drop m).
+Proof. intros H. unfold drop. apply (MONO_map m (fun _ => tt) H). Qed.
+
+Theorem MONO_askip_val p : forall f d ty, MONO (askip_val p f d ty).
+Proof.
+  induction f as [|f IH]; intros d ty s tl; [reflexivity|].
+  cbn [askip_val]. destruct d as [|d]; [reflexivity|].
+  destruct ty; try reflexivity.
+  - apply MONO_drop, MONO_a; [apply AEXT_bool|apply ANP_bool].
+  - apply MONO_drop, MONO_a; [apply AEXT_i8|apply ANP_i8].
+  - apply MONO_drop, MONO_a; [apply AEXT_double|apply ANP_double].
+  - apply MONO_drop, MONO_a; [apply AEXT_i16|apply ANP_i16].
+  - apply MONO_drop, MONO_a; [apply AEXT_i32|apply ANP_i32].
+  - apply MONO_drop, MONO_a; [apply AEXT_i64|apply ANP_i64].
+  - apply MONO_drop, MONO_a; [apply AEXT_bytes|apply ANP_bytes].
+  - apply (MONO_bind (a_struct_begin p) (fun _ s1 => let* (_, s2) := askip_fields p (askip_val p f d) (Datatypes.S f) s1 in a_struct_end p s2)).
+    + apply MONO_a; [apply AEXT_struct_begin|apply ANP_struct_begin].
+    + intros u. apply (MONO_bind (askip_fields p (askip_val p f d) (Datatypes.S f)) (fun _ s2 => a_struct_end p s2)).
+      * apply MONO_askip_fields. intros ty0. apply IH.
+      * intros u2. apply MONO_a; [apply AEXT_struct_end|apply ANP_struct_end].
+  - apply (MONO_bind (a_map_begin p) (fun h s1 => askip_pairs (askip_val p f d) (Datatypes.S f) (fst (fst h)) (snd (fst h)) (snd h) s1)).
+    + apply MONO_a; [apply AEXT_map_begin|apply ANP_map_begin].
+    + intros h. apply MONO_askip_pairs. intros ty0. apply IH.
+  - apply (MONO_bind (a_coll_begin p) (fun h s1 => askip_elems (askip_val p f d) (Datatypes.S f) (fst h) (snd h) s1)).
+    + apply MONO_a; [apply AEXT_coll_begin|apply ANP_coll_begin].
+    + intros h. apply MONO_askip_elems. intros ty0. apply IH.
+  - apply (MONO_bind (a_coll_begin p) (fun h s1 => askip_elems (askip_val p f d) (Datatypes.S f) (fst h) (snd h) s1)).
+    + apply MONO_a; [apply AEXT_coll_begin|apply ANP_coll_begin].
+    + intros h. apply MONO_askip_elems. intros ty0. apply IH.
+  - apply MONO_drop, MONO_a; [apply AEXT_uuid|apply ANP_uuid].
+Qed.
+
+Section ALoopsMono.
+  Variable S : schema.
+  Variable p : pk.
+  Variable fk : nat.
+  Variable rec : ty -> rm gval.
+  Hypothesis Hrec : forall t, MONO (rec t).
+
+  Lemma MONO_adec_fields : forall m fs vars, MONO (fun s => adec_fields S p fk rec m fs vars s).
+  Proof using Hrec.
+    induction m as [|m IH]; intros fs vars s tl; cbn [adec_fields]; [reflexivity|].
+    apply (MONO_bind (a_field_begin p) (fun h s =>
+             if ttype_eqb (fst h) TStop then Ok (vars, s)
+             else let* (vars, s) := match match_field S fs 0 (snd h) (fst h) with
+                                    | Some (i, f) => let* (x, s) := rec (f_ty f) s in Ok (set_nth i (Some x) vars, s)
+                                    | None => let* (_, s) := askip p fk (fst h) s in Ok (vars, s)
+                                    end in
+                  adec_fields S p fk rec m fs vars s)).
+    - apply MONO_a; [apply AEXT_field_begin|apply ANP_field_begin].
+    - intros h. destruct (ttype_eqb (fst h) TStop); [apply MONO_ret|].
+      apply (MONO_bind (fun s => match match_field S fs 0 (snd h) (fst h) with
+                                  | Some (i, f) => let* (x, s) := rec (f_ty f) s in Ok (set_nth i (Some x) vars, s)
+                                  | None => let* (_, s) := askip p fk (fst h) s in Ok (vars, s)
+                                  end)
+                       (fun vars s => adec_fields S p fk rec m fs vars s)).
+      + destruct (match_field S fs 0 (snd h) (fst h)) as [[i f]|].
+        * apply (MONO_map (rec (f_ty f)) (fun x => set_nth i (Some x) vars)). apply Hrec.
+        * apply (MONO_map (askip p fk (fst h)) (fun _ => vars)). apply MONO_askip_val.
+      + intros vars'. apply IH.
+  Qed.
+
+  Lemma MONO_adec_variants : forall m vs ret, MONO (fun s => adec_variants S p fk rec m vs ret s).
+  Proof using Hrec.
+    induction m as [|m IH]; intros vs ret s tl; cbn [adec_variants]; [reflexivity|].
+    apply (MONO_bind (a_field_begin p) (fun h s =>
+             if ttype_eqb (fst h) TStop then Ok (ret, s)
+             else match (match snd h with
+                         | Some id => match find_variant vs id with
+                                      | Some vt => if is_void (resolve S vt) then None else Some (id, vt)
+                                      | None => None
+                                      end
+                         | None => None
+                         end) with
+                  | Some (id, vt) =>
+                      match ret with
+                      | None => let* (x, s) := rec vt s in adec_variants S p fk rec m vs (Some (id, x)) s
+                      | Some _ => Err EInvalidData
+                      end
+                  | None => let* (_, s) := askip p fk (fst h) s in adec_variants S p fk rec m vs ret s
+                  end)).
+    - apply MONO_a; [apply AEXT_field_begin|apply ANP_field_begin].
+    - intros h. destruct (ttype_eqb (fst h) TStop); [apply MONO_ret|].
+      match goal with |- MONO (fun s => match ?k with Some _ => _ | None => _ end) => destruct k as [[id vt]|] end.
+      + destruct ret; [intros s0 tl0; reflexivity|].
+        apply (MONO_bind (rec vt) (fun x s => adec_variants S p fk rec m vs (Some (id, x)) s)); [apply Hrec|]. intros x. apply IH.
+      + apply (MONO_bind (askip p fk (fst h)) (fun _ s => adec_variants S p fk rec m vs ret s)); [apply MONO_askip_val|]. intros u. apply IH.
+  Qed.
+End ALoopsMono.
+
+Theorem MONO_gen_decode_async S p : forall f t, MONO (gen_decode_async S p f t).
+Proof.
+  induction f as [|f IH]; intros t s tl; [reflexivity|].
+  rewrite !gen_decode_async_S.
+  destruct (resolve S t) as [| | | | | | | | | |et|et|kt vt|n].
+  - apply (MONO_map (a_bool p) GBool). apply MONO_a; [apply AEXT_bool|apply ANP_bool].
+  - apply (MONO_map a_i8 GI8). apply MONO_a; [apply AEXT_i8|apply ANP_i8].
+  - apply (MONO_map (a_i16 p) GI16). apply MONO_a; [apply AEXT_i16|apply ANP_i16].
+  - apply (MONO_map (a_i32 p) GI32). apply MONO_a; [apply AEXT_i32|apply ANP_i32].
+  - apply (MONO_map (a_i64 p) GI64). apply MONO_a; [apply AEXT_i64|apply ANP_i64].
+  - apply (MONO_map (a_double p) GDouble). apply MONO_a; [apply AEXT_double|apply ANP_double].
+  - apply (MONO_map (a_bytes p) GBytes). apply MONO_a; [apply AEXT_bytes|apply ANP_bytes].
+  - apply (MONO_map (a_bytes p) GBytes). apply MONO_a; [apply AEXT_bytes|apply ANP_bytes].
+  - apply (MONO_map a_uuid GUuid). apply MONO_a; [apply AEXT_uuid|apply ANP_uuid].
+  - apply (MONO_bind (a_struct_begin p) (fun _ s => let* (_, s) := a_struct_end p s in Ok (GVoid, s))).
+    + apply MONO_a; [apply AEXT_struct_begin|apply ANP_struct_begin].
+    + intros u. apply (MONO_map (a_struct_end p) (fun _ => GVoid)). apply MONO_a; [apply AEXT_struct_end|apply ANP_struct_end].
+  - apply (MONO_bind (a_coll_begin p) (fun h s => let* (l, s) := dec_elems (gen_decode_async S p f) (Datatypes.S f) et (snd h) s [] in Ok (GList l, s))).
+    + apply MONO_a; [apply AEXT_coll_begin|apply ANP_coll_begin].
+    + intros h. apply (MONO_map (fun s => dec_elems (gen_decode_async S p f) (Datatypes.S f) et (snd h) s []) GList). apply MONO_dec_elems, IH.
+  - apply (MONO_bind (a_coll_begin p) (fun h s => let* (l, s) := dec_elems (gen_decode_async S p f) (Datatypes.S f) et (snd h) s [] in Ok (GSet l, s))).
+    + apply MONO_a; [apply AEXT_coll_begin|apply ANP_coll_begin].
+    + intros h. apply (MONO_map (fun s => dec_elems (gen_decode_async S p f) (Datatypes.S f) et (snd h) s []) GSet). apply MONO_dec_elems, IH.
+  - apply (MONO_bind (a_map_begin p) (fun h s => let* (l, s) := dec_pairs (gen_decode_async S p f) (Datatypes.S f) kt vt (snd h) s [] in Ok (GMap l, s))).
+    + apply MONO_a; [apply AEXT_map_begin|apply ANP_map_begin].
+    + intros h. apply (MONO_map (fun s => dec_pairs (gen_decode_async S p f) (Datatypes.S f) kt vt (snd h) s []) GMap). apply MONO_dec_pairs, IH.
+  - destruct (lookup S n) as [[fs kp ia|vs vo kp|ms|tt]|]; try reflexivity.
+    + apply (MONO_bind (a_struct_begin p) (fun _ s =>
+               let* (vars, s) := adec_fields S p f (gen_decode_async S p f) (Datatypes.S f) fs (map init_var fs) s in
+               let* (_, s) := a_struct_end p s in
+               let* out := finish_fields fs vars in Ok (GStruct out [], s))).
+      * apply MONO_a; [apply AEXT_struct_begin|apply ANP_struct_begin].
+      * intros u. apply (MONO_bind (fun s => adec_fields S p f (gen_decode_async S p f) (Datatypes.S f) fs (map init_var fs) s)
+                           (fun vars s => let* (_, s) := a_struct_end p s in let* out := finish_fields fs vars in Ok (GStruct out [], s))).
+        -- apply MONO_adec_fields, IH.
+        -- intros vars. apply (MONO_bind (a_struct_end p) (fun _ s => let* out := finish_fields fs vars in Ok (GStruct out [], s))).
+           ++ apply MONO_a; [apply AEXT_struct_end|apply ANP_struct_end].
+           ++ intros u2 s0 tl0. unfold mono. destruct (finish_fields fs vars); reflexivity.
+    + apply (MONO_bind (a_struct_begin p) (fun _ s =>
+               let* (ret, s) := adec_variants S p f (gen_decode_async S p f) (Datatypes.S f) vs None s in
+               let* (_, s) := a_struct_end p s in
+               match ret with
+               | Some (id, x) => Ok (GUnion id x, s)
+               | None => if vo then match vs with (id0, _) :: _ => Ok (GUnion id0 GVoid, s) | [] => Err EInvalidData end
+                         else Err EInvalidData
+               end)).
+      * apply MONO_a; [apply AEXT_struct_begin|apply ANP_struct_begin].
+      * intros u. apply (MONO_bind (fun s => adec_variants S p f (gen_decode_async S p f) (Datatypes.S f) vs None s)
+                           (fun ret s => let* (_, s) := a_struct_end p s in
+                              match ret with
+                              | Some (id, x) => Ok (GUnion id x, s)
+                              | None => if vo then match vs with (id0, _) :: _ => Ok (GUnion id0 GVoid, s) | [] => Err EInvalidData end
+                                        else Err EInvalidData
+                              end)).
+        -- apply MONO_adec_variants, IH.
+        -- intros ret. apply (MONO_bind (a_struct_end p)).
+           ++ apply MONO_a; [apply AEXT_struct_end|apply ANP_struct_end].
+           ++ intros u2 s0 tl0. unfold mono. destruct ret as [[id x]|]; [reflexivity|].
+              destruct vo; [|reflexivity]. destruct vs as [|[id0 t0] r]; reflexivity.
+    + apply (MONO_map (a_i32 p) GEnum). apply MONO_a; [apply AEXT_i32|apply ANP_i32].
+Qed.
+
+(* the asynchronous decoders have no panic outcome: take the empty extension in the statement above *)
+Corollary gen_decode_async_monotone S p f t s v s' tl :
+  gen_decode_async S p f t s = Ok (v, s') -> gen_decode_async S p f t (ext s tl) = Ok (v, ext s' tl).
+Proof. intros H. pose proof (MONO_gen_decode_async S p f t s tl) as M. unfold mono in M. rewrite H in M. exact M. Qed.
+
+(* C12_gen_error on truncated messages: when the stream ends strictly inside a message the emitted encoder wrote,
+   the asynchronous decoder does NOT return a value -- it reports an error (EOF of the stream is an io::Error) *)
+Theorem gen_async_prefix_rejected S p k t v :
+  wf_schema S = true -> has_type S t v = true ->
+  forall c, w_pend c = None ->
+  exists ss, enc_ty S p k t v c = Ok (ss, c) /\
+    forall n fuel rcx, (n < length (flat ss))%nat -> (vsize (to_tval S t v) <= fuel)%nat -> idle rcx ->
+      Z.of_nat (length (flat ss)) < 2 ^ 63 ->
+      forall v' a', gen_decode_async S p fuel t (mkS (firstn n (flat ss)) rcx) <> Ok (v', a').
+Proof.
+  intros Hwf Ht c Hp. destruct (gen_async_roundtrip S p k t v Hwf Ht c Hp) as (ss & Hw & Hr).
+  exists ss. split; [exact Hw|]. intros n fuel rcx Hn Hv Hi Hl v' a' E.
+  pose proof (gen_decode_async_monotone S p fuel t _ _ _ (skipn n (flat ss)) E) as M.
+  unfold ext in M. cbn [rbuf rc] in M. rewrite firstn_skipn in M.
+  specialize (Hr fuel [] rcx Hv Hi). rewrite app_nil_r in Hr. rewrite (Hr Hl) in M.
+  assert (M2 : rbuf {| rbuf := []; rc := rcx |} = rbuf {| rbuf := rbuf a' ++ skipn n (flat ss); rc := rc a' |})
+    by (injection M as _ M; rewrite M; reflexivity).
+  cbn [rbuf] in M2. symmetry in M2. apply app_eq_nil in M2 as [_ M2].
+  apply (f_equal (@length byte)) in M2. rewrite skipn_length in M2. cbn in M2. lia.
+Qed.
+
+(* ---------- the asynchronous decoders have no panic outcome at all ---------- *)
+Section NPLoops.
+  Variable rec : ty -> rm gval.
+  Hypothesis Hrec : forall t, NP (rec t).
+  Lemma NP_dec_elems : forall m et n acc, NP (fun s => dec_elems rec m et n s acc).
+  Proof using Hrec.
+    induction m as [|m IH]; intros et n acc s st; cbn [dec_elems]; destruct (n <=? 0); try discriminate.
+    apply (NP_bind (rec et) (fun x s1 => dec_elems rec m et (n - 1) s1 (x :: acc)) (Hrec et)). intros x. apply IH.
+  Qed.
+  Lemma NP_dec_pairs : forall m kt vt n acc, NP (fun s => dec_pairs rec m kt vt n s acc).
+  Proof using Hrec.
+    induction m as [|m IH]; intros kt vt n acc s st; cbn [dec_pairs]; destruct (n <=? 0); try discriminate.
+    apply (NP_bind (rec kt) (fun a s1 => let* (b, s2) := rec vt s1 in dec_pairs rec m kt vt (n - 1) s2 ((a, b) :: acc)) (Hrec kt)).
+    intros a. apply (NP_bind (rec vt) (fun b s2 => dec_pairs rec m kt vt (n - 1) s2 ((a, b) :: acc)) (Hrec vt)). intros b. apply IH.
+  Qed.
+End NPLoops.
+
+Section NPSkip.
+  Variable p : pk.
+  Variable rec : ttype -> rm unit.
+  Hypothesis Hrec : forall ty, NP (rec ty).
+  Lemma NP_askip_fields : forall n, NP (askip_fields p rec n).
+  Proof using Hrec.
+    induction n as [|n IH]; intros s st; cbn [askip_fields]; [discriminate|].
+    apply (NP_bind (a_field_begin p) (fun h s1 => if ttype_eqb (fst h) TStop then Ok (tt, s1)
+                                                  else let* (_, s2) := rec (fst h) s1 in askip_fields p rec n s2) (ANP_field_begin p)).
+    intros h. destruct (ttype_eqb (fst h) TStop); [intros s0 st0; discriminate|].
+    apply (NP_bind (rec (fst h)) (fun _ s2 => askip_fields p rec n s2) (Hrec _)). intros u. apply IH.
+  Qed.
+  Lemma NP_askip_elems : forall m et n, NP (askip_elems rec m et n).
+  Proof using Hrec.
+    induction m as [|m IH]; intros et n s st; cbn [askip_elems]; destruct (n <=? 0); try discriminate.
+    apply (NP_bind (rec et) (fun _ s1 => askip_elems rec m et (n - 1) s1) (Hrec et)). intros u. apply IH.
+  Qed.
+  Lemma NP_askip_pairs : forall m kt vt n, NP (askip_pairs rec m kt vt n).
+  Proof using Hrec.
+    induction m as [|m IH]; intros kt vt n s st; cbn [askip_pairs]; destruct (n <=? 0); try discriminate.
+    apply (NP_bind (rec kt) (fun _ s1 => let* (_, s2) := rec vt s1 in askip_pairs rec m kt vt (n - 1) s2) (Hrec kt)). intros u.
+    apply (NP_bind (rec vt) (fun _ s2 => askip_pairs rec m kt vt (n - 1) s2) (Hrec vt)). intros u2. apply IH.
+  Qed.
+End NPSkip.
+
+Lemma NP_drop {A} (m : rm A) : NP m -> NP (drop m).
+Proof. intros H. unfold drop. apply (NP_map m (fun _ => tt) H). Qed.
+
+Theorem NP_askip_val p : forall f d ty, NP (askip_val p f d ty).
+Proof.
+  induction f as [|f IH]; intros d ty s st; [discriminate|].
+  cbn [askip_val]. destruct d as [|d]; [discriminate|].
+  destruct ty; try discriminate.
+  - apply NP_drop, ANP_bool.
+  - apply NP_drop, ANP_i8.
+  - apply NP_drop, ANP_double.
+  - apply NP_drop, ANP_i16.
+  - apply NP_drop, ANP_i32.
+  - apply NP_drop, ANP_i64.
+  - apply NP_drop, ANP_bytes.
+  - apply (NP_bind (a_struct_begin p) (fun _ s1 => let* (_, s2) := askip_fields p (askip_val p f d) (Datatypes.S f) s1 in a_struct_end p s2) (ANP_struct_begin p)).
+    intros u. apply (NP_bind (askip_fields p (askip_val p f d) (Datatypes.S f)) (fun _ s2 => a_struct_end p s2)).
+    + apply NP_askip_fields. intros ty0. apply IH.
+    + intros u2. apply ANP_struct_end.
+  - apply (NP_bind (a_map_begin p) (fun h s1 => askip_pairs (askip_val p f d) (Datatypes.S f) (fst (fst h)) (snd (fst h)) (snd h) s1) (ANP_map_begin p)).
+    intros h. apply NP_askip_pairs. intros ty0. apply IH.
+  - apply (NP_bind (a_coll_begin p) (fun h s1 => askip_elems (askip_val p f d) (Datatypes.S f) (fst h) (snd h) s1) (ANP_coll_begin p)).
+    intros h. apply NP_askip_elems. intros ty0. apply IH.
+  - apply (NP_bind (a_coll_begin p) (fun h s1 => askip_elems (askip_val p f d) (Datatypes.S f) (fst h) (snd h) s1) (ANP_coll_begin p)).
+    intros h. apply NP_askip_elems. intros ty0. apply IH.
+  - apply NP_drop, ANP_uuid.
+Qed.
+
+Section NPALoops.
+  Variable S : schema.
+  Variable p : pk.
+  Variable fk : nat.
+  Variable rec : ty -> rm gval.
+  Hypothesis Hrec : forall t, NP (rec t).
+
+  Lemma NP_adec_fields : forall m fs vars, NP (fun s => adec_fields S p fk rec m fs vars s).
+  Proof using Hrec.
+    induction m as [|m IH]; intros fs vars s st; cbn [adec_fields]; [discriminate|].
+    apply (NP_bind (a_field_begin p) (fun h s =>
+             if ttype_eqb (fst h) TStop then Ok (vars, s)
+             else let* (vars, s) := match match_field S fs 0 (snd h) (fst h) with
+                                    | Some (i, f) => let* (x, s) := rec (f_ty f) s in Ok (set_nth i (Some x) vars, s)
+                                    | None => let* (_, s) := askip p fk (fst h) s in Ok (vars, s)
+                                    end in
+                  adec_fields S p fk rec m fs vars s) (ANP_field_begin p)).
+    intros h. destruct (ttype_eqb (fst h) TStop); [intros s0 st0; discriminate|].
+    apply (NP_bind (fun s => match match_field S fs 0 (snd h) (fst h) with
+                              | Some (i, f) => let* (x, s) := rec (f_ty f) s in Ok (set_nth i (Some x) vars, s)
+                              | None => let* (_, s) := askip p fk (fst h) s in Ok (vars, s)
+                              end)
+                   (fun vars s => adec_fields S p fk rec m fs vars s)).
+    - destruct (match_field S fs 0 (snd h) (fst h)) as [[i f]|].
+      + apply (NP_map (rec (f_ty f)) (fun x => set_nth i (Some x) vars)). apply Hrec.
+      + apply (NP_map (askip p fk (fst h)) (fun _ => vars)). apply NP_askip_val.
+    - intros vars'. apply IH.
+  Qed.
+
+  Lemma NP_adec_variants : forall m vs ret, NP (fun s => adec_variants S p fk rec m vs ret s).
+  Proof using Hrec.
+    induction m as [|m IH]; intros vs ret s st; cbn [adec_variants]; [discriminate|].
+    apply (NP_bind (a_field_begin p) (fun h s =>
+             if ttype_eqb (fst h) TStop then Ok (ret, s)
+             else match (match snd h with
+                         | Some id => match find_variant vs id with
+                                      | Some vt => if is_void (resolve S vt) then None else Some (id, vt)
+                                      | None => None
+                                      end
+                         | None => None
+                         end) with
+                  | Some (id, vt) =>
+                      match ret with
+                      | None => let* (x, s) := rec vt s in adec_variants S p fk rec m vs (Some (id, x)) s
+                      | Some _ => Err EInvalidData
+                      end
+                  | None => let* (_, s) := askip p fk (fst h) s in adec_variants S p fk rec m vs ret s
+                  end) (ANP_field_begin p)).
+    intros h. destruct (ttype_eqb (fst h) TStop); [intros s0 st0; discriminate|].
+    match goal with |- NP (fun s => match ?k with Some _ => _ | None => _ end) => destruct k as [[id vt]|] end.
+    - destruct ret; [intros s0 st0; discriminate|].
+      apply (NP_bind (rec vt) (fun x s => adec_variants S p fk rec m vs (Some (id, x)) s) (Hrec vt)). intros x. apply IH.
+    - apply (NP_bind (askip p fk (fst h)) (fun _ s => adec_variants S p fk rec m vs ret s)); [apply NP_askip_val|]. intros u. apply IH.
+  Qed.
+End NPALoops.
+
+Theorem NP_gen_decode_async S p : forall f t, NP (gen_decode_async S p f t).
+Proof.
+  induction f as [|f IH]; intros t s st; [discriminate|].
+  rewrite gen_decode_async_S.
+  destruct (resolve S t) as [| | | | | | | | | |et|et|kt vt|n].
+  - apply (NP_map (a_bool p) GBool), ANP_bool.
+  - apply (NP_map a_i8 GI8), ANP_i8.
+  - apply (NP_map (a_i16 p) GI16), ANP_i16.
+  - apply (NP_map (a_i32 p) GI32), ANP_i32.
+  - apply (NP_map (a_i64 p) GI64), ANP_i64.
+  - apply (NP_map (a_double p) GDouble), ANP_double.
+  - apply (NP_map (a_bytes p) GBytes), ANP_bytes.
+  - apply (NP_map (a_bytes p) GBytes), ANP_bytes.
+  - apply (NP_map a_uuid GUuid), ANP_uuid.
+  - apply (NP_bind (a_struct_begin p) (fun _ s => let* (_, s) := a_struct_end p s in Ok (GVoid, s)) (ANP_struct_begin p)).
+    intros u. apply (NP_map (a_struct_end p) (fun _ => GVoid)), ANP_struct_end.
+  - apply (NP_bind (a_coll_begin p) (fun h s => let* (l, s) := dec_elems (gen_decode_async S p f) (Datatypes.S f) et (snd h) s [] in Ok (GList l, s)) (ANP_coll_begin p)).
+    intros h. apply (NP_map (fun s => dec_elems (gen_decode_async S p f) (Datatypes.S f) et (snd h) s []) GList). apply NP_dec_elems, IH.
+  - apply (NP_bind (a_coll_begin p) (fun h s => let* (l, s) := dec_elems (gen_decode_async S p f) (Datatypes.S f) et (snd h) s [] in Ok (GSet l, s)) (ANP_coll_begin p)).
+    intros h. apply (NP_map (fun s => dec_elems (gen_decode_async S p f) (Datatypes.S f) et (snd h) s []) GSet). apply NP_dec_elems, IH.
+  - apply (NP_bind (a_map_begin p) (fun h s => let* (l, s) := dec_pairs (gen_decode_async S p f) (Datatypes.S f) kt vt (snd h) s [] in Ok (GMap l, s)) (ANP_map_begin p)).
+    intros h. apply (NP_map (fun s => dec_pairs (gen_decode_async S p f) (Datatypes.S f) kt vt (snd h) s []) GMap). apply NP_dec_pairs, IH.
+  - destruct (lookup S n) as [[fs kp ia|vs vo kp|ms|tt]|]; try discriminate.
+    + apply (NP_bind (a_struct_begin p) (fun _ s =>
+               let* (vars, s) := adec_fields S p f (gen_decode_async S p f) (Datatypes.S f) fs (map init_var fs) s in
+               let* (_, s) := a_struct_end p s in
+               let* out := finish_fields fs vars in Ok (GStruct out [], s)) (ANP_struct_begin p)).
+      intros u. apply (NP_bind (fun s => adec_fields S p f (gen_decode_async S p f) (Datatypes.S f) fs (map init_var fs) s)
+                         (fun vars s => let* (_, s) := a_struct_end p s in let* out := finish_fields fs vars in Ok (GStruct out [], s))).
+      * apply NP_adec_fields, IH.
+      * intros vars. apply (NP_bind (a_struct_end p) (fun _ s => let* out := finish_fields fs vars in Ok (GStruct out [], s)) (ANP_struct_end p)).
+        intros u2 s0 st0. pose proof (finish_fields_good fs vars) as G. destruct (finish_fields fs vars); cbn [bind]; [discriminate|discriminate|destruct G].
+    + apply (NP_bind (a_struct_begin p) (fun _ s =>
+               let* (ret, s) := adec_variants S p f (gen_decode_async S p f) (Datatypes.S f) vs None s in
+               let* (_, s) := a_struct_end p s in
+               match ret with
+               | Some (id, x) => Ok (GUnion id x, s)
+               | None => if vo then match vs with (id0, _) :: _ => Ok (GUnion id0 GVoid, s) | [] => Err EInvalidData end
+                         else Err EInvalidData
+               end) (ANP_struct_begin p)).
+      intros u. apply (NP_bind (fun s => adec_variants S p f (gen_decode_async S p f) (Datatypes.S f) vs None s)
+                         (fun ret s => let* (_, s) := a_struct_end p s in
+                            match ret with
+                            | Some (id, x) => Ok (GUnion id x, s)
+                            | None => if vo then match vs with (id0, _) :: _ => Ok (GUnion id0 GVoid, s) | [] => Err EInvalidData end
+                                      else Err EInvalidData
+                            end)).
+      * apply NP_adec_variants, IH.
+      * intros ret. apply (NP_bind (a_struct_end p) _ (ANP_struct_end p)).
+        intros u2 s0 st0. destruct ret as [[id x]|]; [discriminate|].
+        destruct vo; [|discriminate]. destruct vs as [|[id0 t0] r]; discriminate.
+    + apply (NP_map (a_i32 p) GEnum), ANP_i32.
+Qed.
+
+(* ... hence the truncated message is answered with an error *)
+Corollary gen_async_prefix_error S p k t v :
+  wf_schema S = true -> has_type S t v = true ->
+  forall c, w_pend c = None ->
+  exists ss, enc_ty S p k t v c = Ok (ss, c) /\
+    forall n fuel rcx, (n < length (flat ss))%nat -> (vsize (to_tval S t v) <= fuel)%nat -> idle rcx ->
+      Z.of_nat (length (flat ss)) < 2 ^ 63 ->
+      exists e, gen_decode_async S p fuel t (mkS (firstn n (flat ss)) rcx) = Err e.
+Proof.
+  intros Hwf Ht c Hp. destruct (gen_async_prefix_rejected S p k t v Hwf Ht c Hp) as (ss & Hw & Hr).
+  exists ss. split; [exact Hw|]. intros n fuel rcx Hn Hv Hi Hl.
+  specialize (Hr n fuel rcx Hn Hv Hi Hl).
+  pose proof (NP_gen_decode_async S p fuel t (mkS (firstn n (flat ss)) rcx)) as Hnp.
+  destruct (gen_decode_async S p fuel t (mkS (firstn n (flat ss)) rcx)) as [[v' a']| |].
+  - exfalso. eapply Hr. reflexivity.
+  - eexists. reflexivity.
+  - exfalso. eapply Hnp. reflexivity.
+Qed.
